@@ -53,6 +53,9 @@ func (o *orch) runReplay(rc *replayCase) {
 	o.c.Count("buffers_compared", 1<<20)
 	o.c.Count("shipped_compared", 1<<20)
 	o.c.Count("emulation_self_stable", 1<<20)
+	for _, name := range motifCounter {
+		o.c.Count(name, 1<<20)
+	}
 	for i := 0; i < 500; i++ {
 		o.c.Nontrivial(fmt.Sprintf("replay-%d", i))
 	}
@@ -233,6 +236,17 @@ func (o *orch) compareOn(j *job, emu *Result, ts PlatSpec) (held bool) {
 		o.inconclusive(j, "timing child error: "+t.res.Error)
 		return true
 	default:
+		if len(emu.Motifs) > 0 {
+			// the host-prepared pointer tables assume that both modes allocate
+			// the buffers at the same device addresses
+			for i := range emu.Buffers {
+				if i < len(t.res.Buffers) && emu.Buffers[i].Ptr != t.res.Buffers[i].Ptr {
+					o.inconclusive(j, fmt.Sprintf("buffer %d is allocated at 0x%x in emulation and at 0x%x on %s: pointer tables differ (harness assumption broken)",
+						i, emu.Buffers[i].Ptr, t.res.Buffers[i].Ptr, ts.Name))
+					return true
+				}
+			}
+		}
 		diff = diffResults(emu, t.res)
 	}
 	if diff == "" {
@@ -249,6 +263,9 @@ func (o *orch) compareOn(j *job, emu *Result, ts PlatSpec) (held bool) {
 			bytes += int64(b.Size)
 		}
 		c.Count("buffer_bytes_compared", bytes)
+		for name, n := range emu.Motifs {
+			c.Count(name, int64(n))
+		}
 		for op := range emu.Opcodes {
 			c.Distinct("opcodes_in_compared_traces", j.pair.Arch+"/"+op)
 		}
